@@ -276,11 +276,8 @@ Proof.
     apply Forall2_map_r. rewrite Forall_forall in *. intros y Hy. apply IH; [exact Hy|]. rewrite forallb_forall in Hall. apply Hall, Hy.
   - cbn [dom] in Hd. rewrite dom_all in Hd.
     apply andb_true_iff in Hd as [Hd Hall]. apply andb_true_iff in Hd as [Hd Hchk]. apply andb_true_iff in Hd as [Hd Hdims].
-    apply andb_true_iff in Hd as [Hd Hhi]. apply andb_true_iff in Hd as [Hd Hlo]. apply andb_true_iff in Hd as [Hd Hrad].
-    apply andb_true_iff in Hd as [Harr Hbase].
-    rewrite flat_arr, Harr. unfold array_prefix, integer_text.
-    replace (p_radix c) with false by (destruct (p_radix c); [discriminate|reflexivity]).
-    replace (p_base c) with 10 by lia. rewrite int_text_nat10.
+    apply andb_true_iff in Hd as [Hd Hhi]. apply andb_true_iff in Hd as [Harr Hlo].
+    rewrite flat_arr, Harr. unfold array_prefix.
     destruct rows as [|x rows].
     { exfalso. unfold arr_dims_ok in Hdims. destruct rank as [|[|r]]; try lia. cbn in Hdims. discriminate. }
     rewrite <- !app_assoc.
@@ -397,13 +394,10 @@ Proof.
       apply (elements_RT c); [|exact HF]. rewrite Forall_forall in *. intros y Hy. apply IH; [exact Hy|]. rewrite forallb_forall in Hall. apply Hall, Hy.
   - cbn [dom] in Hd. rewrite dom_all in Hd.
     apply andb_true_iff in Hd as [Hd Hall]. apply andb_true_iff in Hd as [Hd Hchk]. apply andb_true_iff in Hd as [Hd Hdims].
-    apply andb_true_iff in Hd as [Hd Hhi]. apply andb_true_iff in Hd as [Hd Hlo]. apply andb_true_iff in Hd as [Hd Hrad].
-    apply andb_true_iff in Hd as [Harr Hbase].
+    apply andb_true_iff in Hd as [Hd Hhi]. apply andb_true_iff in Hd as [Harr Hlo].
     destruct rows as [|x rows].
     { exfalso. unfold arr_dims_ok in Hdims. destruct rank as [|[|r]]; try lia. cbn in Hdims. discriminate. }
-    rewrite ptree_arr, Harr. unfold array_prefix, integer_text.
-    replace (p_radix c) with false by (destruct (p_radix c); [discriminate|reflexivity]).
-    replace (p_base c) with 10 by lia. rewrite int_text_nat10.
+    rewrite ptree_arr, Harr. unfold array_prefix.
     rewrite append_leaf by (destruct (to_digits 10 (N.of_nat rank)); discriminate). unfold node_text.
     destruct (append_tree_seq (p_margin c) (map (ptree c) (x :: rows)) (1 + length (x :: rows) + sum_sizes (map (ptree c) (x :: rows))) 0 0 ltac:(discriminate))
       as (ts & body & E & HS & HF).
